@@ -168,6 +168,8 @@ def c07_random(rng, count, stops=False):
                 ops.append(rng.choice(["sg", "sg", "sf"]))
             elif x < 0.91 and stops:
                 ops.append("x")
+            elif x < 0.915 and stops:
+                ops.append("y")
             else:
                 ops.append("p")
         cases.append(mk_case(limit, rng.choice([0, 1000, 1500, 2000, 5000]), svcs, ops))
@@ -261,6 +263,11 @@ def c06_special(rng):
         # accept side closes
         (3, 5000, S1, "c0.0 i p x p"), (3, 5000, S1, "c0.0 i x p p"), (3, 5000, S1, "c0.0 i p x sg p a1000 p f0 a1000 p"),
         (3, 5000, [("P", "")], "c0.0 i x p p"),
+        # ... and the server is gone too (both channels closed): the worker ends
+        (3, 5000, S1, "c0.0 i p x y p"), (3, 5000, S1, "c0.0 i p y x p"), (3, 5000, S1, "y p x p"), (3, 5000, S1, "c0.0 i p y p sg x p"),
+        (3, 5000, S1, "c0.0 i p sg y x p a1000 p f0 a1000 p"), (3, 5000, S1, "x p sf p"), (3, 5000, S1, "c0.0 i x p sg p f0 a1000 p"),
+        # queued but not picked at the stop: an idle worker drops its queue
+        (3, 5000, S1, "c0.0 i c0.1 i sg p"), (3, 5000, S1, "p c0.0 i sf p"), (3, 5000, [("P", "")], "c0.0 i p sg p"),
         # timeout boundary
         (3, 1000, S1, "c0.0 i p sg p a999 p a1 p"), (3, 1001, S1, "c0.0 i p sg p a1000 p a1 p a999 p"),
         (3, 0, S1, "c0.0 i p sg p a999 p a1 p"), (3, 1999, S1, "c0.0 i p sg p a1000 p a999 p a1 p"),
@@ -314,6 +321,8 @@ def c06_random(rng, count):
                 ops.append("i")
             elif x < 0.94:
                 ops.append("x")
+            elif x < 0.945:
+                ops.append("y")
             else:
                 ops.append("p")
         cases.append(mk_case(rng.choice([1, 2, 3, 4]), rng.choice([0, 500, 1000, 1500, 2000, 3000, 5000]), svcs, ops))
